@@ -1,4 +1,4 @@
-(* Model of src/asm/output/mod.rs (repaired tree): check_bank_overlap, fill_banks, build_output with
+(* Model of src/asm/output/mod.rs (repaired tree, as landed in /repo: commit 79637a5 range-checks writes only): check_bank_overlap, fill_banks, build_output with
    check_bank_usage / check_bank_output, and of util/bitvec.rs write_bit / write_bigint / mark_span.
    Input: the bank definitions (index 0 = the default bank) and the resolved top-level nodes;
    output: the bits and the recorded spans.  Executable definitions only.
@@ -113,13 +113,14 @@ Definition check_bank_output (mb : N) (b : bank) (pos size : N) (write : bool) :
          end) with
   | Err => Err | Panic => Panic
   | Ok _ =>
-      match (match bk_outp b with
-             | Some o =>
+      (* `if let (true, Some(output_offset)) = (write, bankdef.output_offset)`: only writes are range-checked *)
+      match (match write, bk_outp b with
+             | true, Some o =>
                  match (match checked_add o pos with Some p => checked_add p size | None => None end) with
                  | None => Err
                  | Some e => if mb <? e then Err else Ok tt
                  end
-             | None => Ok tt
+             | _, _ => Ok tt
              end) with
       | Err => Err | Panic => Panic
       | Ok _ => if write && (match bk_outp b with None => true | Some _ => false end) then Err else Ok tt
